@@ -2064,12 +2064,15 @@ func (x *explorer) shouldInline(fr *frame, callee *ssa.Function) bool {
 		if !stdHelperPkg(callee) || fr.depth+1 > x.opts.MaxDepth+2 {
 			return false
 		}
+		// one helper may sit inside a callback of the same helper (a search within a search); deeper than that is
+		// taken for recursion
+		seen := 0
 		for f := fr; f != nil; f = f.parent {
 			if f.fn == callee {
-				return false
+				seen++
 			}
 		}
-		return true
+		return seen < 2
 	}
 	name := x.p.FuncName(callee)
 	if x.opts.NoInline[name] {
